@@ -29,5 +29,6 @@ def run(ctx):
     ctx.tlc("MC_Wire", "MC_Wire_bytes_" + t, replay="wire")
     ctx.tlc("MC_Wire", "MC_Wire_mut_" + t, replay="wire")
     ctx.tlc("MC_Wire", "MC_Wire_announce_" + t, replay="wire")
+    ctx.tlc("MC_Wire", "MC_Wire_tagged_" + t, replay="wire")
     n = 10000 if ctx.quick else 300000
     ctx.record_and_validate("decoder", "Trace_Wire", ["n=%d" % n], label="Trace_Decoder")
